@@ -29,20 +29,26 @@ def _is_docstring(s):
 
 
 def positional(call, fn, skip_self=False):
-    """argument nodes of `call` in the order of fn's parameters (defaults filled in); None if absent"""
+    """argument nodes of `call` in the order of fn's parameters, positional-or-keyword and keyword-only alike (defaults filled
+    in); None if absent"""
     names = [a.arg for a in fn.args.args]
     if skip_self and names and names[0] == 'self':
         names = names[1:]
     defaults = dict(zip(names[len(names) - len(fn.args.defaults):], fn.args.defaults))
+    kwonly = [a.arg for a in fn.args.kwonlyargs]
+    for a, d in zip(kwonly, fn.args.kw_defaults):
+        if d is not None:
+            defaults[a] = d
     out = {}
     if len(call.args) > len(names):
         raise Untranslatable(f'too many positional arguments in {ast.unparse(call)[:60]}')
     for nm, a in zip(names, call.args):
         out[nm] = a
     for k in call.keywords:
-        if k.arg is None or k.arg not in names or k.arg in out:
+        if k.arg is None or k.arg not in names + kwonly or k.arg in out:
             raise Untranslatable(f'keyword {k.arg} in {ast.unparse(call)[:60]}')
         out[k.arg] = k.value
+    names = names + kwonly
     for nm in names:
         if nm not in out:
             out[nm] = defaults.get(nm)
@@ -89,7 +95,16 @@ class SymExec:
                 return '(' + ' '.join([lean] + terms) + ')'
             if f in self.inline:
                 return self.call_inline(f, e, env)['return']
+            if self.is_helper(f):
+                # a same-module straight-line helper: executed symbolically with its parameters bound to the call's arguments
+                r = self.call_inline(f, e, env)['return']
+                if r is None or r == '<field>':
+                    raise Untranslatable(f'helper {f} does not return a symbolic value')
+                return r
             raise Untranslatable(f'call {ast.unparse(e)[:60]}')
+        if isinstance(e, ast.IfExp):
+            # `a if c else b` on scalars or per-axis pairs
+            return self.merge(self.cond(e.test, env), self.ev(e.body, env), self.ev(e.orelse, env))
         if isinstance(e, (ast.ListComp, ast.GeneratorExp)):
             if len(e.generators) != 1 or e.generators[0].ifs:
                 raise Untranslatable('comprehension shape')
@@ -120,7 +135,7 @@ class SymExec:
         leaves = {}
         for sub in ast.walk(e):
             if isinstance(sub, ast.Call) and ast.unparse(sub.func) not in self.scalar_funcs \
-                    and ast.unparse(sub.func) not in self.inline:
+                    and ast.unparse(sub.func) not in self.inline and not self.is_helper(ast.unparse(sub.func)):
                 continue                    # left to Tr (ceil / abs / ...)
             if isinstance(sub, (ast.Name, ast.Subscript, ast.Attribute, ast.Call)):
                 key = ast.unparse(sub)
@@ -133,6 +148,19 @@ class SymExec:
                 if isinstance(v, str):
                     leaves[key] = v
         return Tr(leaves, mode='num').expr(e)
+
+    def is_helper(self, fname):
+        """a plain module-level function of the module under translation that is neither a transform nor one of the functions
+        that produce a field"""
+        if '.' in fname or fname in TRANSFORMS or fname in self.scalar_funcs or fname in self.inline:
+            return False
+        if fname in ('focus', 'unfocus', 'focus_fixed_sampling', 'unfocus_fixed_sampling', 'to_fpm_and_back', 'pad2d', 'crop_center'):
+            return False
+        try:
+            fn = get_def(self.mod, fname)
+        except Untranslatable:
+            return False
+        return isinstance(fn, ast.FunctionDef)
 
     def cond(self, test, env):
         leaves = {}
@@ -192,6 +220,17 @@ class SymExec:
                             env[t.id + '.shape'] = shp[0]
                             res.setdefault('products', []).append((t.id, ast.unparse(s.value)))
                             continue
+                    if isinstance(s.value, ast.List) and not s.value.elts:
+                        env[t.id] = Tup([])
+                        env[t.id + ':local_list'] = True
+                        continue
+                    if isinstance(s.value, (ast.Attribute, ast.Name)):
+                        # `x = y.data` / `x = y`: what is known about attributes of the right-hand side is known about `x`
+                        src = ast.unparse(s.value) + '.'
+                        moved = {t.id + '.' + k[len(src):]: v for k, v in env.items() if isinstance(k, str) and k.startswith(src)}
+                        for k in [k for k in env if isinstance(k, str) and k.startswith(t.id + '.')]:
+                            env.pop(k)
+                        env.update(moved)
                     try:
                         env[t.id] = self.ev(s.value, env)
                     except Untranslatable:
@@ -242,8 +281,15 @@ class SymExec:
                 # data-dependent branch that only re-assigns names: value = if c then new else old
                 c = self.cond(s.test, env)
                 env_t = dict(env)
-                if self.block(s.body, env_t, {'calls': {}, 'return': None}):
-                    raise Untranslatable('return inside a data-dependent branch')
+                res_t = {'calls': {}, 'return': None}
+                if self.block(s.body, env_t, res_t):
+                    # `if c: return A` followed by the rest of the function: the value is `if c then A else <rest>`
+                    rest = list(s.orelse) + list(stmts[stmts.index(s) + 1:])
+                    env_e, res_e = dict(env), {'calls': {}, 'return': None}
+                    if not self.block(rest, env_e, res_e) or res_t['calls'] or res_e['calls']:
+                        raise Untranslatable('early return in a data-dependent branch without a matching return')
+                    res['return'] = self.merge(c, res_t['return'], res_e['return'])
+                    return True
                 env_e = dict(env)
                 if s.orelse and self.block(s.orelse, env_e, {'calls': {}, 'return': None}):
                     raise Untranslatable('return inside a data-dependent branch')
@@ -251,9 +297,30 @@ class SymExec:
                     a, b = env_t.get(nm), env_e.get(nm)
                     if a is b:
                         continue
+                    if a is None or b is None:
+                        env.pop(nm, None)      # a temporary of one branch only: unknown afterwards (using it raises)
+                        continue
                     env[nm] = self.merge(c, a, b)
                 continue
             if isinstance(s, ast.Raise):
+                continue
+            if isinstance(s, ast.For) and isinstance(s.target, ast.Name) and not s.orelse:
+                # a loop over a per-axis pair, unrolled
+                it = self.ev(s.iter, env)
+                if not isinstance(it, Tup):
+                    raise Untranslatable(f'loop over {ast.unparse(s.iter)[:40]} is not a loop over a per-axis pair')
+                for elt in it.elts:
+                    env[s.target.id] = elt
+                    if self.block(s.body, env, res):
+                        raise Untranslatable('return inside a loop')
+                continue
+            if isinstance(s, ast.Expr) and isinstance(s.value, ast.Call) and isinstance(s.value.func, ast.Attribute) \
+                    and s.value.func.attr == 'append' and isinstance(s.value.func.value, ast.Name) \
+                    and isinstance(env.get(s.value.func.value.id), Tup) and len(s.value.args) == 1 \
+                    and env.get(s.value.func.value.id + ':local_list'):
+                # `acc.append(x)` on a list created in this function
+                nm = s.value.func.value.id
+                env[nm] = Tup(env[nm].elts + [self.ev(s.value.args[0], env)])
                 continue
             if isinstance(s, ast.Expr):
                 # a bare call statement may act in place on an array (np.conj(x, out=x), x.sort(), ...): not modelled
@@ -345,8 +412,8 @@ class SymExec:
                     continue
                 env2[nm] = self.ev(a, env)
             except Untranslatable:
-                if nm in ('method', 'return_more'):
-                    continue
+                if nm in ('method', 'return_more') or fname not in self.inline:
+                    continue        # an argument without a symbolic value: using it inside the callee raises there
                 raise
         sub = SymExec(self.mod, self.scalar_funcs, self.inline, self.depth + 1)
         return sub.run(fn, env2)
@@ -403,10 +470,18 @@ def scalar_funcs(mod, names=('Q_for_sampling', 'pupil_sample_to_psf_sample', 'ps
 
 
 def emit_scalar(g, mod, py, lean, fallback_args):
+    """a scalar function of the module, executed symbolically (local temporaries, calls to the other scalar conversions and to
+    same-module helpers are followed)"""
     def build():
         fn = get_def(mod, py)
         params = [a.arg for a in fn.args.args]
-        return fn_to_lean(fn, lean, params, 'K', mode='num')
+        others = {k: v for k, v in scalar_funcs(mod).items() if k != py}
+        res = SymExec(mod, others).run(fn, {p: p for p in params})
+        r = res['return']
+        if not isinstance(r, str) or r == '<field>':
+            raise Untranslatable(f'{py} does not return a scalar expression')
+        binders = ' '.join(f'({p} : K)' for p in params)
+        return f'def {lean} {binders} : K :=\n  {typed(r)}\n'
     g.item(py, f'prysm/propagation.py:{py}', lambda: get_def(mod, py), build,
            f'def {lean} ({fallback_args} : K) : K := {M}.{lean} {fallback_args}')
 
@@ -739,7 +814,10 @@ def c03_items(g, ft, pr, repo):
                 l, r = e.left, e.right
                 if isinstance(r, ast.Call):
                     l, r = r, l
-                if not (_endswith(l, ('fftrange',)) and l.args and ast.unparse(l.args[0]) == gen.target.id):
+                if not _endswith(l, ('fftrange',)):
+                    return None
+                _, fa = positional(l, get_def(ft, 'fftrange'))
+                if fa.get('n') is None or ast.unparse(fa['n']) != gen.target.id:
                     return None
                 if ast.unparse(r) != 'dx':
                     return None
@@ -761,11 +839,12 @@ def c03_items(g, ft, pr, repo):
             calls = find_calls(fn, 'make_xy_grid')
             if len(calls) != 1:
                 return None
-            kw = {k.arg: ast.unparse(k.value) for k in calls[0].keywords}
-            shape = calls[0].args[0] if calls[0].args else None
-            if shape is None:
+            _, a = positional(calls[0], get_def(co, 'make_xy_grid'))
+            if a.get('shape') is None or a.get('dx') is None:
                 return None
-            ok.append(ast.unparse(shape) in ('self.data.shape', 'self.shape') and kw.get('dx') == 'self.dx' and 'diameter' not in kw)
+            diam = a.get('diameter')
+            no_diam = diam is None or (isinstance(diam, ast.Constant) and diam.value == 0)
+            ok.append(ast.unparse(a['shape']) in ('self.data.shape', 'self.shape') and ast.unparse(_strip(a['dx'])) == 'self.dx' and no_diam)
         return all(ok)
     g.fact('richDataGridFromOwnShapeAndDx', 'prysm/_richdata.py:RichData.x/.y', rich_xy)
 
